@@ -52,6 +52,8 @@ def reads_only(c):
         return False        # np.ndarray.fill(x, 0): the unbound method of the array type
     if isinstance(c.func, ast.Name):
         return c.func.id in PURE_FUNCS
+    if fn in ("time.time", "time.monotonic", "time.perf_counter", "time.time_ns", "time.monotonic_ns") and not c.args and not c.keywords:
+        return True         # reading the clock changes nothing (time.sleep is not among them: other threads and processes run meanwhile)
     tail = _np_tail(fn)
     if tail is not None:
         last = tail.split(".")[-1]
